@@ -15,9 +15,9 @@ import (
 // from the type-checked syntax.
 
 type KV struct {
-	K, V   constant.Value
-	KExpr  ast.Expr
-	VExpr  ast.Expr
+	K, V  constant.Value
+	KExpr ast.Expr
+	VExpr ast.Expr
 }
 
 func (p *Prog) syntaxPkg(sp *ssa.Package) *packages.Package {
